@@ -152,6 +152,23 @@ claim('C20',
       'regex AST inspection, constant evaluation',
       'DESIGN.md section 4 C20')
 
+claim('C08',
+      'Decides cursor discipline and tree-construction invariants of the '
+      'recursive-descent parser on every path: node arity against the '
+      'evaluated schema, start/end extents taken from the cursor, cursor '
+      'restoration between alternatives, save/restore of the short-if fence '
+      'across re-entrant parsing, operator and statement-keyword inventories '
+      'against the reference grammar, and the (missing) end-of-input test.',
+      'Decided: the necessary conditions above. One open known finding: '
+      'process_tokens has no end-of-input test (known_findings.json). Not '
+      'decided: that the tree has the right shape for a concrete program '
+      '(operand order, chain nesting) -- a value-level property of a '
+      'recursive algorithm outside this technique. Trusted: refs/grammar.py.',
+      'static analysis: CFG path / dominance checks over the parser methods, '
+      'constant evaluation of schema and operator tables, try/finally '
+      'pairing',
+      'DESIGN.md section 4 C08')
+
 
 def main():
     props = []
